@@ -30,6 +30,9 @@ def obligations(tier):
                      no_std=["--pointer-overflow-check", "--signed-overflow-check", "--undefined-shift-check"],
                      encodes=["ABTI_ythread_callback_" + nm, "ABTI_thread_handle_request", "ABTI_thread_handle_request_migrate", "ABTI_ythread_resume_and_push", "ABTI_pool_inc_num_blocked", "ABTI_pool_dec_num_blocked"],
                      bounds="one block/resume cycle, 3 pools", symbolic="whether a migration request is pending", timeout=300))
+    import importlib
+    C11 = importlib.import_module("props.C11")
+    o += [x for x in C11.obligations(tier) if x.name == "directed_thread_yield_to"]   # error path of ABT_thread_yield_to must undo its num_blocked pre-increment
     return o
 
 MANIFEST_ENTRY = {
